@@ -185,7 +185,7 @@ def term_at(fn, pt):
 TRANSPARENT = re.compile(
     r"(^|::)(clone|deref|deref_mut|as_ref|as_mut|borrow|borrow_mut|unwrap|expect|unwrap_or_default|into|from|"
     r"branch|as_str|as_bytes|as_slice|to_owned|to_string|to_vec|as_path|as_deref|as_deref_mut|into_inner|"
-    r"get_mut|lock|read|write|try_into|unwrap_unchecked|into_iter|iter|by_ref|as_ptr|as_mut_ptr|cast|"
+    r"get_mut|lock|read|write|try_into|unwrap_unchecked|into_iter|iter|iter_mut|by_ref|as_ptr|as_mut_ptr|cast|"
     r"to_path_buf|into_boxed_slice|new_unchecked|get_unchecked|from_mut|from_ref|index|index_mut|"
     r"copied|cloned|unwrap_or|map_err|join|next|next_back|peek|enumerate|rev|map|filter|ok_or|ok_or_else|as_mut_slice|into_string|to_le_bytes|to_be_bytes)$")
 
